@@ -60,7 +60,14 @@ OK(e) == CASE e.what = "select_by_name" -> SelectByNameOK(e)
 IsPanic(e) == ("res" \in DOMAIN e /\ e.res[1] = "Panic") \/ ("st" \in DOMAIN e /\ e.st = "panic")
 Init == l = 1 /\ bad = <<>>
 Next == /\ l <= Len(Rec)
-        /\ LET e == Rec[l]  c == IF IsPanic(e) THEN 5 ELSE IF OK(e) THEN 0 ELSE 1 IN bad' = IF c = 0 THEN bad ELSE (IF Len(bad) >= 5000 THEN bad ELSE Append(bad, <<l, c>>))
+        \* code 16 (+1): after select_function_by_name the selection designates nothing that exists - the one sentence of a
+        \* LISTED property (C12: "the function/block selection always designates an existing function and block or
+        \* nothing", for every sequence of Builder calls) that these calls fall under; 5: the call panicked (C12 too)
+        /\ LET e == Rec[l]
+               c == IF IsPanic(e) THEN 5
+                    ELSE IF e.what = "select_by_name" /\ ~SelectionValid(e.module[1], e.post[1], e.post[2]) THEN 17
+                    ELSE IF OK(e) THEN 0 ELSE 1
+           IN bad' = IF c = 0 THEN bad ELSE (IF Len(bad) >= 5000 THEN bad ELSE Append(bad, <<l, c>>))
         /\ l' = l + 1
 Spec == Init /\ [][Next]_vars
 Done == l = Len(Rec) + 1
